@@ -698,6 +698,34 @@ Proof.
     + destruct I1 as (D & P). exists ArmPanic. unfold rsel_step. rewrite O, P. unfold recover_sees. eauto.
 Qed.
 
+(* ================================================================== pass-through writers, effective deadline *)
+Lemma lw_transparent : forall evs w c b,
+  lw_inner (fold_left lw_apply evs (mklw w c b)) = fold_left rw_apply evs w /\
+  lw_buf (fold_left lw_apply evs (mklw w c b)) =
+  b ++ flat_map (fun e => match e with RWrite bs => bs | _ => [] end) evs.
+Proof.
+  induction evs as [|e r IH]; intros w c b; simpl; [rewrite app_nil_r; auto|].
+  destruct e as [c' h|bs]; simpl.
+  - unfold lw_write_header; simpl. apply IH.
+  - unfold lw_write; simpl. destruct (IH (rw_write bs w) c (b ++ bs)) as [A B]. split; [exact A|].
+    rewrite B, <- app_assoc. reflexivity.
+Qed.
+
+Lemma effective_timeout_cases g r :
+  (0 < r -> effective_timeout g r = r) /\ (r <= 0 -> effective_timeout g r = g).
+Proof. unfold effective_timeout. split; intro H; destruct (0 <? r) eqn:E; lia. Qed.
+
+Lemma t_effective_deadline : forall g r,
+  (0 < r -> effective_timeout g r = r) /\
+  (r <= 0 -> effective_timeout g r = g) /\
+  (effective_timeout g r = 0 <-> (r <= 0 /\ g = 0) ) /\
+  (forall t, rpc_has_timeout t = true <-> 0 < t).
+Proof.
+  intros g r. destruct (effective_timeout_cases g r) as [A B]. split; [exact A|]. split; [exact B|]. split.
+  - unfold effective_timeout. destruct (0 <? r) eqn:E; lia.
+  - intro t. unfold rpc_has_timeout. lia.
+Qed.
+
 (* ================================================================== the statements of Props.v *)
 Lemma t_exactly_one_response : forall recover rh0 acts ls s,
   run recover ls (init rh0 acts) = Some s ->
